@@ -271,6 +271,14 @@ func judge(c Case, o Obs) []verdict {
 	positive := mn > 0 && mx > 0
 	everywhere := mn == -1 && mx == -1
 	mutates := c.Entry != "block"
+	if c.Entry == "rpcpin-preset" && !everywhere {
+		// the caller supplied the placement: nothing of the property applies
+		// beyond "a failed request changes nothing"
+		if o.Failed && (o.Logged > 0 || o.Changed) {
+			out = append(out, verdict{"failed-but-pinset-changed", fmt.Sprintf("request failed (%s) but the pinset changed", o.Err)})
+		}
+		return out
+	}
 	switch {
 	case positive && mn > mx:
 		// no list can hold between min and max healthy holders
